@@ -267,12 +267,12 @@ def configs(ctx):
         add("NF", "s", 3, 3)                               # ... of 3 calls on three objects (incl. MissingEncoder(OneHotEncoder()))
         add("TX", "s", 3, 2)
     else:
-        for ka in ("OneHot", "Factor", "Categ", "MissOH"):
+        for ka in ("OneHot", "Factor", "Categ"):
             add(ka, "s", 5, 2, split=True)                 # ALL histories of 5 calls on two objects
             add(ka, "s", 4, 3)                             # ... of 4 calls on three objects
+        add("MissOH", "s", 4, 2); add("MissOH", "s", 4, 3)
         add("NF3", "m", 3, 3, design=True); add("NFX", "m", 3, 3, design=True); add("MissOH", "m", 3, 3, design=True)
-        add("TX", "s", 4, 2, split=True)
-        add("TXN", "s", 5, 2, split=True)
+        add("TX", "s", 4, 2, split=True)                   # the always-fit kinds: ALL histories of 4 calls
         add("TX", "m", 3, 2, design=True)
     return R
 
@@ -339,7 +339,7 @@ def run(ctx):
         # per-action coverage = the calls that are actually replayed (TLC's -coverage costs 5x the run): an action of the spec that no
         # history of the run takes makes the run vacuous
         r.coverage = {a: [0, 0] for a in ACTIONS}
-        seen = set()
+        seen = 0
         for h in hists:
             if len(h["steps"]) != c["calls"]: raise RuntimeError("Encoders %s: unexpected history %r" % (name, h))
             h["kind"] = h["init"]["kind"]
@@ -347,23 +347,21 @@ def run(ctx):
                 cv = r.coverage[ACTION_OF[st["a"]]]; cv[0] += 1; cv[1] += 1
                 per_kind.setdefault(h["kind"], collections.Counter())[st["a"]] += 1
             r.coverage["Finish"][1] += 1
-            key = json.dumps([h["init"], [(s["a"], s["o"], s["x"]) for s in h["steps"]]], sort_keys=True)
-            if key in seen: continue
-            seen.add(key)
+            seen += 1          # every history is a distinct state of the model: TLC prints each once
             if len(h["vals"]) != len(h["obj1"]["probe"]): raise RuntimeError("alphabet of %s: %d values, the spec probes %d" % (name, len(h["vals"]), len(h["obj1"]["probe"])))
-            for mi, m in enumerate(modes_for(c, len(seen))):
-                ctx.case("%s#%d" % (name, len(seen)) if mi == 0 else None); nmodes += 1
+            for mi, m in enumerate(modes_for(c, seen)):
+                ctx.case("%s#%d" % (name, seen) if mi == 0 else None); nmodes += 1
                 try: replay(h, m, E, CobaException, Categorical)
                 except Bad as b:
                     sig = "%s:%s" % (h["kind"], b.sig)
                     nsig[sig] = nsig.get(sig, 0) + 1
                     if nsig[sig] > 4: ctx.violation(sig, "", None)          # counted; the first ones carry the text and the replay file
                     else: ctx.violation(sig, "%s   [%s; arguments as %s, %s]" % (b.what, text(h), m[0], m[1]), dict(run=name, mode=m, program=text(h), history=h))
-            if name not in sampled and len(seen) == len(hists) // 2 + 1:
+            if name not in sampled and seen == len(hists) // 2 + 1:
                 sampled.add(name); ctx.sample(dict(run=name, program=text(h), expected=[show(s["r"]) if s["r"]["t"] != "nil" else "new: is_fit=%d" % s["new"]["fit"] for s in h["steps"]]), limit=10)
-        total += len(seen)
+        total += seen
         ctx.add_tlc("Encoders " + name, r, required_actions=ACTIONS if (c["first"] == "any" and c["calls"] >= 2) else ())
-        ctx.extra.setdefault("histories", {})[name] = len(seen)
+        ctx.extra.setdefault("histories", {})[name] = seen
 
     # at most `window` TLC runs in flight or waiting to be replayed (their output is large)
     window = ctx.pick(4, 3); pending = collections.deque(); it = iter(jobs)
